@@ -9,28 +9,35 @@ From Calamine Require XmlText NumFmt.
 From Coq Require Import Strings.String.
 Open Scope N_scope.
 
-(* (1) A1 names: every row with r + 1 < 10^9 and every column below 26^6 (the exact no-overflow
-   bounds of the scanner; A1..XFD1048576 is row < 2^20, col < 2^14) reads back, in upper and in
-   lower case, and the name contains no '$' *)
+(* (1) A1 names: every row with r + 1 < 10^9 and every column below 26^6 (the no-overflow bounds of
+   the pre-hardening u32 scanner, through which the proof goes; A1..XFD1048576 is row < 2^20,
+   col < 2^14; the hardened u64 scanner accepts even more) reads back, in upper and in lower case,
+   and the name contains no '$' *)
 Theorem C01_a1_roundtrip : forall row col,
   row + 1 < ROW_LIMIT -> col < COL_LIMIT ->
-  get_row_and_optional_column (a1_name row col) = Ok (row, Some col) /\
-  get_row_and_optional_column (map to_lower (a1_name row col)) = Ok (row, Some col) /\
+  get_row_and_optional_column_x (a1_name row col) = Ok (row, Some col) /\
+  get_row_and_optional_column_x (map to_lower (a1_name row col)) = Ok (row, Some col) /\
   ~ In ch_dollar (a1_name row col).
 Proof. exact a1_roundtrip_full. Qed.
 
-(* … and the row bound is exact: the tenth digit overflows u32 *)
-Theorem C01_a1_row_limit_exact : forall row col, ROW_LIMIT <= row + 1 ->
-  get_row_column (a1_name row col) = Panic.
-Proof. exact a1_row_limit_exact. Qed.
+(* after the hardening the scanner is total: no input whatsoever makes it panic (listed for C06) *)
+Theorem C01_no_panic_get_row_and_optional_column : forall range,
+  get_row_and_optional_column_x range <> Panic /\ get_row_and_optional_column_x range <> OutOfFuel.
+Proof. exact scanner_no_panic. Qed.
 
 Example C01_a1_grid_inside_limits : 1048575 + 1 < ROW_LIMIT /\ 16383 < COL_LIMIT.
 Proof. unfold ROW_LIMIT, COL_LIMIT. lia. Qed.
 
+(* … and so are worksheet_range_ref / worksheet_range at the event level: no event list, string
+   table, format table or header row makes the model panic or run out of fuel (listed for C06) *)
+Theorem C01_no_panic_worksheet_range : forall parse_f64 en h evs,
+  total (xlsx_range_ref parse_f64 en h evs) /\ total (xlsx_range parse_f64 en h evs).
+Proof. exact sheet_no_panic. Qed.
+
 (* (2) the reader's cell list for a legal encoding: one cell per encoded cell at the logical
    position; writing every reference out changes neither the cells nor the range *)
 Theorem C01_cursor_equiv : forall parse_f64 en sh,
-  legal_sheet parse_f64 en sh = true -> known_C01 sh = None ->
+  legal_sheet parse_f64 en sh = true ->
   legal_sheet parse_f64 en (all_explicit sh) = true /\
   (exists cs, sheet_cells parse_f64 en (encode sh) = Ok (Some cs) /\
               sheet_cells parse_f64 en (encode (all_explicit sh)) = Ok (Some cs) /\
@@ -46,7 +53,10 @@ Theorem C01_typing_table : forall parse_f64 en v a,
   match XmlText.get_attribute a a_t with
   | None =>
       read_v parse_f64 en v a =
-      match parse_f64 v with Some bits => Cont (num bits) | None => Cont (RString v) end
+      match v with
+      | [] => Cont REmpty
+      | _ => match parse_f64 v with Some bits => Cont (num bits) | None => Cont (RString v) end
+      end
   | Some t =>
       (t = v_n -> read_v parse_f64 en v a =
          match v with
@@ -54,9 +64,10 @@ Theorem C01_typing_table : forall parse_f64 en v a,
          | _ => match parse_f64 v with Some bits => Cont (num bits) | None => Fail E_PARSEFLOAT end
          end) /\
       (t = v_s -> read_v parse_f64 en v a =
-         match nth_N (e_strings en) idx with Some s => Cont (RShared s) | None => Boom end) /\
+         match nth_N (e_strings en) idx with Some s => Cont (RShared s) | None => Fail E_OUT_OF_RANGE end) /\
       (t = v_str -> read_v parse_f64 en v a = Cont (RString (unescape_xstring v))) /\
-      (t = v_b -> read_v parse_f64 en v a = Cont (RBool (negb (XmlText.str_eqb v v_0)))) /\
+      (t = v_b -> read_v parse_f64 en v a =
+         Cont (RBool (negb (XmlText.str_eqb v v_0) && negb (XmlText.str_eqb v v_false)))) /\
       (t = v_e -> read_v parse_f64 en v a =
          match parse_cell_error v with Some c => Cont (RError c) | None => Fail E_CELLERROR end) /\
       (t = v_d -> read_v parse_f64 en v a = Cont (RDateTimeIso v)) /\
@@ -85,9 +96,9 @@ Proof. exact typing_inline. Qed.
    range the logical sheet denotes — the tight bounding rectangle of its non-empty cells, the
    stored value at every absolute position, Empty elsewhere inside, nothing outside *)
 Theorem C01_xlsx_sheet_main : forall parse_f64 en sh,
-  legal_sheet parse_f64 en sh = true -> known_C01 sh = None ->
-  xlsx_sheet_model parse_f64 en (encode sh) = range_of parse_f64 en (logical sh) /\
-  exists r, xlsx_sheet_model parse_f64 en (encode sh) = Ok r /\ Wf r /\
+  legal_sheet parse_f64 en sh = true ->
+  let r := range_of parse_f64 en (logical sh) in
+  xlsx_sheet_model parse_f64 en (encode sh) = Ok r /\ Wf r /\
     rect r = tight_bbox (map fst (used_cells_spec parse_f64 en (logical sh))) /\
     (forall q, get_value r q =
        if in_rect r q then Some (value_at parse_f64 en (logical sh) q) else None).
@@ -95,7 +106,6 @@ Proof. exact xlsx_sheet_main. Qed.
 
 Theorem C01_encoding_independent : forall parse_f64 en sh1 sh2,
   legal_sheet parse_f64 en sh1 = true -> legal_sheet parse_f64 en sh2 = true ->
-  known_C01 sh1 = None -> known_C01 sh2 = None ->
   logical sh1 = logical sh2 ->
   xlsx_sheet_model parse_f64 en (encode sh1) = xlsx_sheet_model parse_f64 en (encode sh2).
 Proof. exact encoding_independent. Qed.
@@ -103,18 +113,19 @@ Proof. exact encoding_independent. Qed.
 (* non-vacuity: a concrete sheet with explicit / implicit / mixed references, a prefix, a wrong
    dimension, ignorable content, a style-only cell, an empty row and every value kind is legal *)
 Example C01_sheet_nonvacuous :
-  legal_sheet toy_parse wit_env wit_sheet = true /\ known_C01 wit_sheet = None /\
+  legal_sheet toy_parse wit_env wit_sheet = true /\
   map fst (logical wit_sheet) =
-    [(2, 25); (2, 26); (2, 27); (2, 701); (2, 702); (3, 0); (3, 1); (3, 2); (8, 730)] /\
+    [(2, 25); (2, 26); (2, 27); (2, 701); (2, 702); (3, 0); (3, 1); (3, 2); (8, 730); (8, 731)] /\
   (exists r, xlsx_sheet_model toy_parse wit_env (encode wit_sheet) = Ok r /\
-             start r = Some (2, 0) /\ end_ r = Some (8, 730) /\
+             start r = Some (2, 0) /\ end_ r = Some (8, 731) /\
              get_value r (2, 25) = Some (DFloat 42) /\
              get_value r (2, 26) = Some (DString (ascii "one")) /\
              get_value r (2, 27) = Some (DDateTime 7 false false) /\
              get_value r (2, 702) = Some (DBool true) /\
              get_value r (3, 0) = Some (DError 1) /\
              get_value r (3, 1) = Some DEmpty /\
-             get_value r (8, 730) = Some (DDateTimeIso (ascii "2021-01-01"))).
+             get_value r (8, 730) = Some (DDateTimeIso (ascii "2021-01-01")) /\
+             get_value r (8, 731) = Some (DError 7)).
 Proof. exact wit_sheet_legal. Qed.
 
 (* (5) relationship targets and part lookup *)
@@ -148,21 +159,46 @@ Example C01_paths_nonvacuous :
             (ascii "xl/worksheets/sheet1.xml") = Some (ascii "XL/Worksheets/SHEET1.xml", 2).
 Proof. vm_compute. repeat split. Qed.
 
-(* known classes: the property is refuted on them by the faithful model *)
-Theorem C01_refuted_getting_data : forall parse_f64,
-  legal_sheet parse_f64 wit_env wit_sheet_k1 = true /\
-  known_C01 wit_sheet_k1 = Some 1 /\
-  xlsx_sheet_model parse_f64 wit_env (encode wit_sheet_k1) = Err E_CELLERROR /\
-  exists r, range_of parse_f64 wit_env (logical wit_sheet_k1) = Ok r /\
-            get_value r (1, 1) = Some (DError 7) /\
-            xlsx_sheet_model parse_f64 wit_env (encode wit_sheet_k1) <> Ok r.
-Proof. exact refuted_getting_data. Qed.
+(* (6) the workbook level: for every legal workbook description (1..n sheets of any kind, any
+   accepted target spelling, any prefixes) and every package that holds its parts under any ASCII
+   casing, in any order, among any other entries: Xlsx::new finds the sheets in workbook order with
+   their normalised paths and the date system; worksheet_range of every sheet is the range its
+   part denotes (range_of of the logical sheet for a worksheet, the empty range for the other
+   kinds); worksheets() lists every sheet in workbook order with exactly those ranges *)
+Theorem C01_xlsx_workbook_main : forall parse_f64 strings formats wb pk,
+  legal_workbook wb = true -> known_C01_wb wb = None ->
+  package_holds parse_f64 strings formats wb pk ->
+  let en := mkEnv strings formats (date_flag wb) in
+  let sheets := map name_path (wb_sheets wb) in
+  open_sheets pk = Ok (sheets, date_flag wb) /\
+  (forall s, In s (wb_sheets wb) ->
+     workbook_range parse_f64 strings formats pk sheets (date_flag wb) (sr_name s) =
+     sheet_spec parse_f64 en (sr_content s)) /\
+  workbook_ranges parse_f64 strings formats pk =
+    Ok (map (fun s => (sr_name s, sheet_spec parse_f64 en (sr_content s))) (wb_sheets wb)).
+Proof. exact xlsx_workbook_main. Qed.
 
-Theorem C01_refuted_rel_prefix :
+Theorem C01_xlsx_worksheets_main : forall parse_f64 strings formats wb pk,
+  legal_workbook wb = true -> known_C01_wb wb = None ->
+  package_holds parse_f64 strings formats wb pk ->
+  let en := mkEnv strings formats (date_flag wb) in
+  exists l, worksheets_model parse_f64 strings formats pk = Ok l /\
+    map fst l = map sr_name (wb_sheets wb) /\
+    Forall2 (fun nr s => sheet_spec parse_f64 en (sr_content s) = Ok (snd nr)) l (wb_sheets wb).
+Proof. exact xlsx_worksheets_main. Qed.
+
+Example C01_workbook_nonvacuous :
+  legal_workbook wit_wb_r = true /\ known_C01_wb wit_wb_r = None /\
+  package_holds toy_parse (e_strings wit_env) (e_formats wit_env) wit_wb_r (wit_package_full wit_wb_r).
+Proof. exact wit_workbook_legal. Qed.
+
+(* the remaining known class (F30), refuted by the faithful model as long as it describes the
+   unfixed tree (rid_fix_applied = false) *)
+Theorem C01_refuted_rel_prefix : rid_fix_applied = false ->
   known_C01_wb (wit_wb (ascii "r")) = None /\
   open_sheets (wit_package (wit_wb (ascii "r"))) =
     Ok ([(ascii "First", ascii "xl/worksheets/sheet1.xml");
-         (ascii "Second", ascii "xl/worksheets/sheet2.xml");
+         (ascii "Second", ascii "xl/chartsheets/sheet2.xml");
          (ascii "Third", ascii "xl/worksheets/sheet3.xml")], true) /\
   known_C01_wb (wit_wb (ascii "rel")) = Some 2 /\
   open_sheets (wit_package (wit_wb (ascii "rel"))) = Err E_UNRECOGNIZED.
@@ -170,35 +206,38 @@ Proof. exact refuted_rel_prefix. Qed.
 
 Check C01_a1_roundtrip : forall row col,
   row + 1 < ROW_LIMIT -> col < COL_LIMIT ->
-  get_row_and_optional_column (a1_name row col) = Ok (row, Some col) /\
-  get_row_and_optional_column (map to_lower (a1_name row col)) = Ok (row, Some col) /\
+  get_row_and_optional_column_x (a1_name row col) = Ok (row, Some col) /\
+  get_row_and_optional_column_x (map to_lower (a1_name row col)) = Ok (row, Some col) /\
   ~ In ch_dollar (a1_name row col).
 Check C01_xlsx_sheet_main : forall parse_f64 en sh,
-  legal_sheet parse_f64 en sh = true -> known_C01 sh = None ->
-  xlsx_sheet_model parse_f64 en (encode sh) = range_of parse_f64 en (logical sh) /\
-  exists r, xlsx_sheet_model parse_f64 en (encode sh) = Ok r /\ Wf r /\
+  legal_sheet parse_f64 en sh = true ->
+  let r := range_of parse_f64 en (logical sh) in
+  xlsx_sheet_model parse_f64 en (encode sh) = Ok r /\ Wf r /\
     rect r = tight_bbox (map fst (used_cells_spec parse_f64 en (logical sh))) /\
     (forall q, get_value r q =
        if in_rect r q then Some (value_at parse_f64 en (logical sh) q) else None).
 Check C01_encoding_independent : forall parse_f64 en sh1 sh2,
   legal_sheet parse_f64 en sh1 = true -> legal_sheet parse_f64 en sh2 = true ->
-  known_C01 sh1 = None -> known_C01 sh2 = None ->
   logical sh1 = logical sh2 ->
   xlsx_sheet_model parse_f64 en (encode sh1) = xlsx_sheet_model parse_f64 en (encode sh2).
 
 Print Assumptions C01_a1_roundtrip.
-Print Assumptions C01_a1_row_limit_exact.
+Print Assumptions C01_no_panic_get_row_and_optional_column.
+Print Assumptions C01_no_panic_worksheet_range.
 Print Assumptions C01_a1_grid_inside_limits.
 Print Assumptions C01_cursor_equiv.
 Print Assumptions C01_typing_table.
 Print Assumptions C01_typing_inline.
 Print Assumptions C01_xlsx_sheet_main.
 Print Assumptions C01_encoding_independent.
+Check C01_xlsx_workbook_main.
 Print Assumptions C01_sheet_nonvacuous.
 Print Assumptions C01_target_normal_form.
 Print Assumptions C01_sheet_type_of_folder.
 Print Assumptions C01_part_lookup_case_insensitive.
 Print Assumptions C01_part_lookup_recased.
 Print Assumptions C01_paths_nonvacuous.
-Print Assumptions C01_refuted_getting_data.
+Print Assumptions C01_xlsx_workbook_main.
+Print Assumptions C01_xlsx_worksheets_main.
+Print Assumptions C01_workbook_nonvacuous.
 Print Assumptions C01_refuted_rel_prefix.
